@@ -66,42 +66,43 @@ func cursorFamily(fn *ssa.Function, tm *Termer, listTerm string) map[ssa.Value]b
 // exhaustedBy: does the branch outcome g say that a cursor of fam ran off its
 // list (forward: c >= len(list) / !(c < len(list)); backward: c < 0 / !(c >= 0))?
 func exhaustedBy(tm *Termer, g Guard, fam map[ssa.Value]bool, listTerm string) bool {
-	b, ok := g.Cond.(*ssa.BinOp)
-	if !ok {
+	// the outcome as a fact `c rel y` about a cursor c of the family, whatever the spelling of the test
+	// (operands exchanged, complement under `!`, branches exchanged)
+	y, set, ok := c07FactAbout(g.Cond, g.True, func(v ssa.Value) bool { return fam[v] })
+	if !ok || fam[y] {
 		return false
 	}
-	x, y, op := b.X, b.Y, b.Op
-	if !fam[x] && fam[y] {
-		x, y = y, x
-		switch op {
-		case token.LSS:
-			op = token.GTR
-		case token.GTR:
-			op = token.LSS
-		case token.LEQ:
-			op = token.GEQ
-		case token.GEQ:
-			op = token.LEQ
-		}
+	if tm.Of(y).String() == "len("+listTerm+")" {
+		// forward: the outcome excludes c < len (c >= len, c == len, c > len)
+		return set&c07RelLT == 0
 	}
-	if !fam[x] {
+	if k, isK := c07Int(y); isK {
+		// backward: the outcome implies c < 0 (c < k with k <= 0; c <= k or c == k with k <= -1)
+		return (k <= 0 && set == c07RelLT) || (k <= -1 && set&c07RelGT == 0)
+	}
+	return false
+}
+
+// inRangeBy: does the branch outcome g say that a cursor of fam is still inside its list (forward: c < len(list);
+// backward: c >= 0, c > -1)? `c != len(list)` / `c != -1` count as well: for a cursor that starts inside-or-at-the-end
+// and moves by one step per iteration under this very test they are the same fact (the callers prove start and step).
+// This is NOT the complement of exhaustedBy: `c > len` refused says c <= len, which is not "inside".
+func inRangeBy(tm *Termer, g Guard, fam map[ssa.Value]bool, listTerm string) bool {
+	return c07InRangeFact(tm, g, func(v ssa.Value) bool { return fam[v] }, listTerm)
+}
+
+// c07InRangeFact is inRangeBy for a cursor value picked by a predicate (e.g. "resolves, on this path, to the
+// value the cursor has at the start of the iteration").
+func c07InRangeFact(tm *Termer, g Guard, is func(ssa.Value) bool, listTerm string) bool {
+	y, set, ok := c07FactAbout(g.Cond, g.True, is)
+	if !ok || is(y) {
 		return false
 	}
-	yt := tm.Of(y)
-	isLen := yt.String() == "len("+listTerm+")"
-	isZero := yt.String() == "0"
-	switch {
-	case isLen && op == token.GEQ && g.True, isLen && op == token.LSS && !g.True, isLen && op == token.EQL && g.True, isLen && op == token.NEQ && !g.True:
-		return true
-	case isZero && op == token.LSS && g.True, isZero && op == token.GEQ && !g.True:
-		return true
+	if tm.Of(y).String() == "len("+listTerm+")" {
+		return set == c07RelLT || set == c07RelLT|c07RelGT
 	}
-	// the same backward test against -1: c <= -1, c == -1, !(c > -1), !(c != -1)
-	if k, isK := c07Int(y); isK && k == -1 {
-		switch {
-		case op == token.LEQ && g.True, op == token.EQL && g.True, op == token.GTR && !g.True, op == token.NEQ && !g.True:
-			return true
-		}
+	if k, isK := c07Int(y); isK {
+		return (k >= 0 && set&c07RelLT == 0) || (k >= -1 && set == c07RelGT) || (k == -1 && set == c07RelLT|c07RelGT)
 	}
 	return false
 }
@@ -177,31 +178,12 @@ func relInfeasible(tm *Termer, conds []Guard) bool {
 	}
 	allowed := map[string]int{}
 	for _, g := range conds {
-		b, ok := g.Cond.(*ssa.BinOp)
+		// the outcome as a relation that holds (c07Fact: `!` removed, constants on the right); lt/eq/gt are the c07Rel* bits
+		bx, by, set, ok := c07Fact(g.Cond, g.True)
 		if !ok {
 			continue
 		}
-		var set int
-		switch b.Op {
-		case token.LSS:
-			set = lt
-		case token.LEQ:
-			set = lt | eq
-		case token.GTR:
-			set = gt
-		case token.GEQ:
-			set = gt | eq
-		case token.EQL:
-			set = eq
-		case token.NEQ:
-			set = lt | gt
-		default:
-			continue
-		}
-		if !g.True {
-			set = (lt | eq | gt) &^ set
-		}
-		ka, kb := keyOf(b.X), keyOf(b.Y)
+		ka, kb := keyOf(bx), keyOf(by)
 		k := ka + "|" + kb
 		if _, ok := allowed[kb+"|"+ka]; ok {
 			k = kb + "|" + ka
@@ -281,19 +263,8 @@ func C07(p *Prog, r *Run) {
 				n++
 				guarded := false
 				for _, g := range Guards(b) {
-					gb, ok := g.Cond.(*ssa.BinOp)
-					if !ok {
-						continue
-					}
-					x, y := gb.X, gb.Y
-					if cv, ok := x.(*ssa.Convert); ok {
-						x = cv.X
-					}
-					if x == den && tm.Of(y).String() == "0" && ((gb.Op == token.GTR && g.True) || (gb.Op == token.NEQ && g.True) || (gb.Op == token.LEQ && !g.True) || (gb.Op == token.EQL && !g.True)) {
-						guarded = true
-					}
-					// the same fact written the other way round (0 < n) or against 1 (n >= 1, !(n < 1))
-					if c07NonZeroBy(gb, g.True, den) {
+					// n > 0, n != 0, n >= 1 in any spelling (0 < n, !(n <= 0), !(n == 0), !(n < 1), ...)
+					if c07NonZeroBy(g.Cond, g.True, den) {
 						guarded = true
 					}
 				}
@@ -502,6 +473,17 @@ func C07(p *Prog, r *Run) {
 					r.Undecided(label, pos, "cannot decompose the cursor updates on this path")
 					continue
 				}
+				// walking direction: both lists are sorted by innovation number, the linear walk merges them from the
+				// front (+1 per step), the fast walk from the back (-1 per step); a step the other way revisits or
+				// skips genes (and the per-step rules below - which gene is the unmatched one - presuppose the direction)
+				wantDir := 1
+				if kind == "fast" {
+					wantDir = -1
+				}
+				if a1*wantDir < 0 || a2*wantDir < 0 {
+					r.Bad(label, pos, fmt.Sprintf("an iteration moves the cursors by (%+d,%+d), against the walking direction (%+d) of the %s walk: genes are revisited or skipped", a1, a2, wantDir, kind), ip.Describe(p)...)
+					continue
+				}
 				if a1 < 0 {
 					a1 = -a1
 				}
@@ -594,22 +576,8 @@ func C07(p *Prog, r *Run) {
 					}
 					if ok && kind == "fast" && sw != nil {
 						// 4-state table
-						cur := int64(-1)
-						neg := map[int64]bool{}
-						for _, g := range ip.Conds {
-							if b, isB := g.Cond.(*ssa.BinOp); isB && b.Op == token.EQL && b.X == ssa.Value(sw) {
-								if k, isK := c07Int(b.Y); isK {
-									if g.True {
-										cur = k
-									} else {
-										neg[k] = true
-									}
-								}
-							}
-						}
-						if cur < 0 && neg[1] && neg[2] && neg[3] {
-							cur = 0
-						}
+						// (read from the outcomes of every test of the switch on this path, in any spelling)
+						cur := c07StateOnPath(ip.Conds, sw)
 						nv := ip.NextValue(sw)
 						nx, isK := c07Int(nv)
 						if nv == ssa.Value(sw) && cur >= 0 {
@@ -744,6 +712,7 @@ func C07(p *Prog, r *Run) {
 		r.c07CheckResult(w, tm, paths)
 		r.c07CheckStart(w, tm, paths)
 		r.c07CheckEarlyReturns(w, tm)
+		r.c07CheckGenes(w, tm, paths)
 		r.Floor(fn.Name()+" iteration paths", nBack, 3)
 		r.Floor(fn.Name()+" exit paths", nExit, 1)
 	}
@@ -872,6 +841,7 @@ func (r *Run) c07Coefficients() {
 			}
 		})
 	}
+	r.c07CoefficientKeys(coeff)
 	if nBad == 0 {
 		r.OK("coefficients.writers", "-", fmt.Sprintf("%d write(s) to the three coefficients in the library, all of them fill a fresh Options object from the input", nWrites))
 	}
